@@ -47,7 +47,7 @@ func NewShared() *Shared {
 	s.IntNode = ast.NewIntNode(4, "x", 3, "y")
 	s.AVar = ast.NewASCIINodeVariable("s", 1, 5)
 	s.Child = ast.NewListNode(ast.NewBinaryNode(1, 2), ast.NewFloatNode(8, 0.5), ast.NewIntNode(8, -2, 258), ast.NewUintNode(4, 65537), ast.NewBooleanNode(true))
-	s.Incompl = ast.NewDataMessage("tmpl", 6, 11, 2, "H<-E", s.Tmpl)
+	s.Incompl = ast.NewDataMessage("tmpl", 5, 1, 2, "H<-E", s.Tmpl) // single-digit codes: the shortest header prefix
 	mk := func() *ast.DataMessage {
 		return ast.NewHSMSDataMessage("done", 1, 13, 1, "H->E", ast.NewListNode(ast.NewListNode(ast.NewBinaryNode(1, 2), ast.NewFloatNode(8, 0.5), ast.NewIntNode(8, -2, 258), ast.NewUintNode(4, 65537), ast.NewBooleanNode(true)), ast.NewASCIINode("MDLN")), 258, []byte{1, 2, 3, 4})
 	}
